@@ -48,6 +48,9 @@ def verify_keys(P, R, keys, verbose=True):
             if o.status == "dead-exit":
                 o.status = "discharged"
         bad = [o for o in obs if o.status not in ("discharged", "trivial")]
+        live_normal = any("exit-live:normal" in o.ident and o.status == "discharged" for o in obs)
+        if c.ensures and not live_normal and "$noreturn" not in c.env and verbose:
+            print(f"!! {key}: NO LIVE NORMAL EXIT although the contract has postconditions (vacuous proof)")
         dead = sorted(f"{k[0].split(':')[-1]}@{k[1]}" for k, v in eng.handlers_seen.items() if not v)
         if verbose:
             print(f"== {key}: {len(obs)} obligations, gen {tg:.2f}s, paths {eng.paths_explored}, undischarged {len(bad)}" + (f", except clauses never entered: {dead}" if dead else ""))
